@@ -10,7 +10,7 @@ package main
 //   * the string constants of ast.go (operator names, join kinds, …) with their token sequences;
 //   * the keyword table of token.go and the non-reserved keyword list of sql.y.
 //
-// The Lean printer `Octo.Sql.print*` interprets these generated templates, so a changed format string changes the
+// The Lean printer `Octo.SqlSyn.print*` interprets these generated templates, so a changed format string changes the
 // model and the round-trip theorem is re-proved against it.  Fail closed: any Go construct outside the shapes
 // recognised here is an error.
 
@@ -49,7 +49,7 @@ var sqlListTypes = []string{
 	"Triggers", "Columns",
 }
 
-// Lean constructor names of Octo.Sql.Kw (must match lean/Octo/Model/Sql.lean)
+// Lean constructor names of Octo.SqlSyn.Kw (must match lean/Octo/Model/Sql.lean)
 var sqlLeanKw = map[string]bool{}
 
 func init() {
@@ -85,7 +85,7 @@ func leanStr(s string) string {
 	return sb.String()
 }
 
-// leanTok renders one real token as a Lean term of type Octo.Sql.Tok
+// leanTok renders one real token as a Lean term of type Octo.SqlSyn.Tok
 func leanTok(t sqlTok) (string, error) {
 	switch t.typ {
 	case sqlparser.ID:
@@ -461,7 +461,7 @@ func extractSQLFormat(repo, outDir string) error {
 	}
 	var sb strings.Builder
 	sb.WriteString("import Octo.Model.SqlTok\n/-! GENERATED by `vh extract sqlformat` from parser/sqlparser/{ast.go,token.go,sql.y}. Do not edit. -/\n")
-	sb.WriteString("namespace Octo.Sql.Gen\nopen Octo.Sql\n\n")
+	sb.WriteString("namespace Octo.SqlSyn.Gen\nopen Octo.SqlSyn\n\n")
 
 	for _, tn := range sqlStepTypes {
 		fd, ok := formats[tn]
@@ -577,7 +577,7 @@ func extractSQLFormat(repo, outDir string) error {
 		}
 		fmt.Fprintf(&sb, "  (%s, %s)%s\n", leanStr(k.text), t, sep)
 	}
-	sb.WriteString("]\n\nend Octo.Sql.Gen\n")
+	sb.WriteString("]\n\nend Octo.SqlSyn.Gen\n")
 	if len(x.errs) > 0 {
 		return fmt.Errorf("sqlformat: %d problem(s):\n  %s", len(x.errs), strings.Join(x.errs, "\n  "))
 	}
